@@ -47,10 +47,10 @@ def run(ctx):
         res = (impl if cid[0] == 'm' else impl2).get(cid) or ['ABORT']
         i = int(cid[1:].split('_')[0])
         corr.count(muts[i][0])
-        head = res[0].split()[0] if cid[0] == 'm' else ('PANIC' if any(l.startswith(('PANIC', 'ABORT', 'HANG')) for l in res) else 'OK')
+        head = res[0].split()[0] if cid[0] == 'm' else ('PANIC' if any(l.startswith(('PANIC', 'ABORT', 'HANG', 'SKIPPED-AFTER-HANGS')) for l in res) else 'OK')
         corr.seen(f[0] + f[1], nontrivial=(head != 'OK'))
         corr.count('outcome_' + head)
-        if head in ('PANIC', 'ABORT', 'HANG') or (cid[0] == 'j' and any(('PANIC' in l or 'ABORT' in l or 'HANG' in l) for l in res)):
+        if head in ('PANIC', 'ABORT', 'HANG', 'SKIPPED-AFTER-HANGS') or (cid[0] == 'j' and any(('PANIC' in l or 'ABORT' in l or 'HANG' in l) for l in res)):
             corr.oracle_failures.append((cid, 'reader %s on a %s input (%d bytes, opts %s): %s' % (head, muts[i][0], len(muts[i][1]), f[1], [l[:160] for l in res[:3]]),
                                          {'mode': 'read' if cid[0] == 'm' else 'incr', 'fields': f, 'input_hex': f[0], 'kind': muts[i][0],
                                           'rerun': 'pvh %s <file: x <input_hex> %s ...>' % ('read' if cid[0] == 'm' else 'incr', f[1])}))
@@ -61,7 +61,7 @@ def run(ctx):
     fs_streams = [synth.emit(synth.gen_wf(rng, nframes=rng.choice([0, 1, 3]))) for _ in range(60 if thorough else 15)] + [b for k, b in muts[:(400 if thorough else 60)] if b and len(b) <= 6000][:(200 if thorough else 40)]   # the fragment-level model counts in unary: small streams only
     impl3, _ = readsched_corr(ctx, corr, rng, fs_streams, 3, faults=True)
     for cid, res in impl3.items():
-        if any(l.startswith(('PANIC', 'ABORT', 'HANG')) for l in (res or ['ABORT'])):
+        if any(l.startswith(('PANIC', 'ABORT', 'HANG', 'SKIPPED-AFTER-HANGS')) for l in (res or ['ABORT'])):
             corr.oracle_failures.append((cid, 'reader %s under an injected stream fault' % (res or ['ABORT'])[0], {'mode': 'readsched', 'case': cid}))
     # a fault at EVERY read call of small replays, under every option set: the read must fail (never a game from partial reads)
     small = [synth.emit(synth.gen_wf(rng, nframes=rng.choice([0, 1, 2]), gecko=0)) for _ in range(6 if thorough else 3)]
